@@ -7,6 +7,14 @@ from props import c13
 VOCAB = ["::=", "SEQUENCE", "SET", "OF", "CHOICE", "ENUMERATED", "INTEGER", "BOOLEAN", "NULL", "OCTET", "BIT", "STRING", "UTF8String", "IA5String",
          "SIZE", "OPTIONAL", "DEFAULT", "DEFINITIONS", "AUTOMATIC", "TAGS", "BEGIN", "END", "IMPORTS", "FROM", "MIN", "MAX", "TRUE", "FALSE",
          "{", "}", "(", ")", "[", "]", ",", ";", ".", "..", "...", "0", "-1", "7", "x", "Tt", "\"", "'", "APPLICATION", "WITH"]
+# ... and every other reserved word of X.680 (11.27): a front end that knows a word only half may do anything with it
+VOCAB += ["ABSENT", "ABSTRACT-SYNTAX", "ALL", "BMPString", "BY", "CHARACTER", "CLASS", "COMPONENT", "COMPONENTS", "CONSTRAINED", "CONTAINING",
+          "DATE", "DATE-TIME", "DURATION", "EMBEDDED", "ENCODED", "ENCODING-CONTROL", "EXCEPT", "EXPLICIT", "EXPORTS", "EXTENSIBILITY", "EXTERNAL",
+          "GeneralizedTime", "GeneralString", "GraphicString", "IDENTIFIER", "IMPLICIT", "IMPLIED", "INCLUDES", "INSTANCE", "INSTRUCTIONS",
+          "INTERSECTION", "ISO646String", "MINUS-INFINITY", "NOT-A-NUMBER", "NumericString", "OBJECT", "ObjectDescriptor", "OID-IRI", "PATTERN",
+          "PDV", "PLUS-INFINITY", "PRESENT", "PrintableString", "PRIVATE", "REAL", "RELATIVE-OID", "RELATIVE-OID-IRI", "SETTINGS", "SYNTAX",
+          "T61String", "TeletexString", "TIME", "TIME-OF-DAY", "TYPE-IDENTIFIER", "UNION", "UNIQUE", "UNIVERSAL", "UniversalString", "UTCTime",
+          "VideotexString", "VisibleString"]
 
 SEEDS = [
     "Seed1 DEFINITIONS AUTOMATIC TAGS ::= BEGIN A ::= SEQUENCE { a INTEGER (0..7) OPTIONAL, b UTF8String DEFAULT \"hello world\",\n ..., c [APPLICATION 3] BOOLEAN } B ::= CHOICE { x A, y NULL, ..., z OCTET STRING (SIZE(1..4,...)) } END",
